@@ -114,6 +114,26 @@ PROPS = {
         "modelled": ['meters, alerts, tracing, print_status, tenant prefix, message expiry (generators keep expiry out of range)', 'thread interleavings inside one Router::consume() (link-side drain between two router-side lock acquisitions) are not generated: ops are atomic', "flume channel capacity of the router's event channel, parking_lot mutexes"],
         "assumptions": ["router driven single-threadedly through hooks H1-H3 (guard --cfg rumqtt_verif): Router::verif_events / verif_consume, link-side buffers via rumqttd::verif::new_buffers"],
     },
+    "C18": {
+        # one run serves C18 and (until they are attached to C02/C07/C10/C11) the loop-level clauses:
+        # `--profile c18` = keep-alive / zero / connection-timeout schedules, `--profile loop` = scripted
+        # sessions x every cut position; no profile = both
+        "runs": [{"vh": "cloop", "selftest": True, "shards_thorough": 16, "max_parallel": 6}],
+        "lean_extra_targets": ["Proofs.Props.CLoop"],
+        "trusted_base": [
+            "Timer model: time as Nat milliseconds = tokio's paused clock; `Timely` (a due timer fires before time moves on, the application keeps polling) is a hypothesis of ping_period / silent_broker_detected / connect_timeout",
+            "the real EventLoop (v4 and v5) runs over tokio::io::duplex through hook H5 on a current-thread runtime with start_paused(true); the harness never sleeps on real time and runs every non-racing schedule twice (transcripts must be identical)",
+            "MqttState is abstract in the loop model (StateOps); the driver predicts the wire with a small stand-in (Driver/CLoopD.lean, `Mini`) that no theorem depends on",
+        ],
+        "modelled": [
+            "tokio's timer accuracy on a real clock and select! fairness under load are runtime behaviour the model cannot exhibit: simultaneity is an oracle (either order accepted), lateness is excluded by `Timely`",
+            "flume channel internals and capacity, TCP/TLS/websocket transports, Framed's byte-level buffering (frames are packets here; codecs are C04/C05)",
+        ],
+        "assumptions": [
+            "keep-alive values are whole seconds (v4 setter: 0 or >= 1 s, v5 setter: >= 5 s; v5 server_keep_alive any u16)",
+            "an answer at exactly t+k is outside the hypothesis of no_false_alarm (both outcomes are accepted and recorded)",
+        ],
+    },
 }
 
 _CSTATE_TB = [
